@@ -429,9 +429,9 @@ def main():
         if tier == "thorough" or i686_override:
             # one more configuration: a target whose usize is 32 bits wide (table construction and indexing
             # arithmetic must not depend on the width of usize); interpreted, so no cross toolchain is needed
-            miri_runs += run_miri([1001, 1002], 2, 1, par, target="i686-unknown-linux-gnu")
+            miri_runs += run_miri([1001, 1002], 3, 1, par, target="i686-unknown-linux-gnu")
             # and a big-endian target (byte-order assumptions in limb <-> byte conversions)
-            miri_runs += run_miri([2001], 2, 1, par, target="s390x-unknown-linux-gnu")
+            miri_runs += run_miri([2001], 3, 1, par, target="s390x-unknown-linux-gnu")
         for r in miri_runs:
             if r["rc"] != 0:
                 cls = miri_failure_class(r)
@@ -439,7 +439,7 @@ def main():
                     harness_error("Miri build failed: " + r["stderr"][-1500:])
                 name = "C09-%d-%s" % (seed, cls)
                 replay_path = os.path.join(VERIF, "replays", name + ".json")
-                json.dump(dict(engine="lazysim-miri", property="C09", invariant=cls, miri_seed=r["seed"], threads=3 if r.get("target", "host") == "host" else 2, ops=1,
+                json.dump(dict(engine="lazysim-miri", property="C09", invariant=cls, miri_seed=r["seed"], threads=3, ops=1,
                                target=r.get("target", "host"),
                                flags=MIRI_FLAGS, detail=r["stderr"][-3000:]), open(replay_path, "w"), indent=1)
                 print("violation found under Miri seed %d: %s" % (r["seed"], cls))
